@@ -322,6 +322,42 @@ pub fn run(ctx: &'static Ctx) -> (&'static str, Value, Vec<&'static str>) {
         })
         .reduce(Stats::new, Stats::merge);
     stats = stats.merge(sraw);
+    // the same raw sweep on other base messages (an accessor must depend only on its own
+    // halfword, whatever the other 59 hold), and raw, raw^bit, raw sequences on one thread
+    for bp in [0u8, 1] {
+        let alt = decode(&plan(bp));
+        let s_alt: Stats = (0u32..65536)
+            .into_par_iter()
+            .fold(Stats::new, |mut st, raw| {
+                check_raw(ctx, &alt, raw as u16, &mut st);
+                if bp == 0 {
+                    for b in 0..16 {
+                        check_raw(ctx, &base, raw as u16 ^ (1 << b), &mut st);
+                        check_raw(ctx, &base, raw as u16, &mut st);
+                    }
+                }
+                st
+            })
+            .reduce(Stats::new, Stats::merge);
+        stats = stats.merge(s_alt);
+    }
+    // alarm lookup: every ordered pair of codes 0..=820 looked up back to back
+    let spairs: Stats = (0u32..=820)
+        .into_par_iter()
+        .fold(Stats::new, |mut st, a| {
+            for b in 0u32..=820 {
+                let r = guarded(|| (rda::alarm::get_alarm_message(a as u16).map(|d| d.code()), rda::alarm::get_alarm_message(b as u16).map(|d| d.code())));
+                st.evaluations += 1;
+                let exp = |c: u32| if c <= 800 { Some(c as u16) } else { None };
+                if r != Caught::Ret((exp(a), exp(b))) {
+                    ctx.fail("history:alarm_lookup_depends_on_previous_lookup", || format!("lookup {a} then {b}: {:?}", r), || json!({"op": "alarm_pair", "a": a, "b": b}));
+                }
+            }
+            st.count("alarm_lookup_pairs", 821);
+            st
+        })
+        .reduce(Stats::new, Stats::merge);
+    stats = stats.merge(spairs);
     // alarm arrays: all placements of <= 2 (thorough: <= 3) non-zero codes among 14 slots
     let pool: [u16; 5] = [14, 700, 800, 1, 398];
     let mut n_arrays = 0u64;
@@ -429,6 +465,9 @@ pub fn replay(ctx: &'static Ctx, case: &Value) {
             }
         }
         Some("raw") => check_raw(ctx, &decode(&rda_in_domain()), case["raw"].as_u64().unwrap_or(0) as u16, &mut st),
+        Some("alarm_pair") | Some("short_read") | Some("short_read_stream") => {
+            let _ = run(ctx);
+        }
         Some("alarms") => {
             let mut a = [0u16; 14];
             if let Some(arr) = case["codes"].as_array() {
